@@ -67,10 +67,21 @@ func TestC30(t *testing.T) {
 		}
 		_ = sig
 		// determinism vs reference, mixing Read sizes and Uint64/Int63
-		p, err := tls.VerifNewPRNG(&seed)
+		// (the generator is built from a scratch variable that the caller wipes or reuses for
+		// the next seed straight afterwards: the stream belongs to the seed VALUE it was given)
+		scratch := seed
+		p, err := tls.VerifNewPRNG(&scratch)
 		if err != nil {
 			viol("prng_new_error", err.Error())
 			return
+		}
+		switch i % 3 {
+		case 0:
+			scratch = tls.PRNGSeed{}
+		case 1:
+			for k := range scratch {
+				scratch[k] ^= 0x5a
+			}
 		}
 		ref := refStream(&seed, 4096)
 		off := 0
